@@ -24,7 +24,7 @@ RULE = ("scenarios of 1..6 overlapping DEN requests (emergency-vehicle applicati
 ASSUMPTIONS = ["virtual sleep: the repetition threads are real, their sleeps are released in wake-up order by the harness; a 20 s wall-clock watchdog ends a run as inconclusive",
                "the emergency-vehicle application's fixed 1 s interval is varied by setting its public attribute before triggering"]
 REQUIRED_COUNTERS = ["events", "denms", "schedules_compared", "multi_message_schedules", "action_id_pairs_compared", "received_denms_in_ldm_checked",
-                     "denms_of_moving_events_judged",
+                     "denms_of_moving_events_judged", "received_denm_streams_checked",
                      "S.schedules", "S.preempted_schedules", "S.event_schedules_judged"]
 
 
@@ -343,6 +343,52 @@ def run_reception(spec, res):
             if objs[0]["dataObject"]["denm"]["management"]["actionId"] != mg["actionId"]:
                 res.violation("C17:stored-denm-differs-from-received", "", case)
             res.case(repr(case))
+            # ---- a stream of DENMs into ONE receiver: several originating stations whose events share sequence numbers
+            # (every station numbers its events from 0), repetitions of an event, arrival out of generation order
+            if k % 3 == 0:
+                ldm = H.make_ldm("Dictionary")
+                rx = DENMReceptionManagement(coder, btp, ldm)
+                ldm.if_ldm_4.register_data_consumer(RegisterDataConsumerReq(1, (AccessPermission.DENM,), H.area()))
+                events = {}
+                stream = []
+                for j in range(rng.randrange(2, 7)):
+                    aid = (rng.choice((101, 202, 303)), rng.choice((0, 0, 1)))
+                    if aid not in events:
+                        events[aid] = (rng.randrange(-900000000, 900000001), rng.randrange(-1800000000, 1800000001))
+                    stream.append({"aid": aid, "pos": events[aid], "ref": rng.choice((10 ** 9, 10 ** 9 + 500, 10 ** 9 - 700, rng.randrange(10 ** 9 - 5000, 10 ** 9 + 5000)))})
+                seen = set()
+                for j, ev in enumerate(stream):
+                    m = DecentralizedEnvironmentalNotificationMessage()
+                    mg = m.denm["denm"]["management"]
+                    mg["eventPosition"]["latitude"], mg["eventPosition"]["longitude"] = ev["pos"]
+                    mg["actionId"] = {"originatingStationId": ev["aid"][0], "sequenceNumber": ev["aid"][1]}
+                    mg["detectionTime"] = ev["ref"]
+                    mg["referenceTime"] = ev["ref"]
+                    mg["stationType"] = 5
+                    m.denm["header"]["stationId"] = ev["aid"][0]
+                    scase = {"part": "rx", "stream": [{"aid": list(e["aid"]), "pos": list(e["pos"]), "ref": e["ref"]} for e in stream[:j + 1]]}
+                    try:
+                        data = coder.encode(m.denm)
+                        rx.reception_callback(BTPDataIndication(destination_port=2002, data=data, length=len(data)))
+                    except Exception as e:  # noqa
+                        res.violation(f"C17:reception-raises-{type(e).__name__}[stream]", f"{e!r}", scase)
+                        break
+                    seen.add(ev["aid"])
+                    r = ldm.if_ldm_4.request_data_objects(RequestDataObjectsReq(1, (1,), None, None, None))
+                    objs = [o for o in r.data_objects if "denm" in o.get("dataObject", {})]
+                    res.count("received_denms_in_ldm_checked")
+                    res.count("received_denm_streams_checked")
+                    mine = [o for o in objs if (o["dataObject"]["denm"]["management"]["actionId"]["originatingStationId"],
+                                                o["dataObject"]["denm"]["management"]["actionId"]["sequenceNumber"]) == ev["aid"]]
+                    older = any(e2["aid"] != ev["aid"] and e2["aid"][1] == ev["aid"][1] and e2["ref"] > ev["ref"] for e2 in stream[:j])
+                    cls = "[another-station's-event-with-the-same-sequence-number-and-a-newer-reference-time-was-received-before]" if older else ""
+                    if not mine:
+                        res.violation("C17:received-denm-not-stored-in-ldm[stream]" + cls, f"DENM {j} with action id {ev['aid']} is not in the LDM ({len(objs)} DENM records)", scase)
+                    elif not any((o["location"]["referencePosition"]["latitude"], o["location"]["referencePosition"]["longitude"]) == ev["pos"] for o in mine):
+                        res.violation("C17:received-denm-stored-at-another-position[stream]", f"action id {ev['aid']}", scase)
+                    have = {(o["dataObject"]["denm"]["management"]["actionId"]["originatingStationId"], o["dataObject"]["denm"]["management"]["actionId"]["sequenceNumber"]) for o in objs}
+                    if not seen <= have:
+                        res.violation("C17:earlier-received-event-lost-from-ldm[stream]", f"missing {sorted(seen - have)}", scase)
     finally:
         clock.uninstall()
 
